@@ -3,11 +3,14 @@ import logging
 import time
 import warnings
 
+import pyarrow as pa
+
 from drivers import _wire2_args as A
 from drivers import _wire2_tlc as table
 from drivers._wire2_live import Live, pairs
 from vf import world
 from vf.core import Ctx
+from vf.tlc import Raw
 
 META = {
     "engine": "wire",
@@ -29,8 +32,14 @@ META = {
 
 INVS = ["OnlyIdentityAndOptionalNull", "DefaultsNeverExcuse", "WideningNeverAdmitted", "EverySchemaChangeDetected",
         "WellFormed"]
-BEHS = ["ok", "type_error", "arrow_invalid"]
-PATHS = ["sock_unary", "sock_stream", "http_unary", "http_stream"]
+BEHS = ["ok", "type_error", "arrow_invalid", "value_error", "key_error", "version_error"]
+PATHS = ["sock_unary", "sock_stream", "http_unary", "http_stream", "sock_shm", "sock_ctx", "http_ctx"]
+BASE_TYPES = ["i64", "i32", "f64", "str", "oi64", "enum"]
+MORE_TYPES = ["bool", "bytes", "f32", "list", "ostr", "oenum", "dc"]
+
+
+def _types(names) -> Raw:
+    return Raw("{" + ", ".join(f'"{n}"' for n in names) + "}")
 CLOSE_INPUT = world.ipc_stream(__import__("pyarrow").schema([]), [])
 
 
@@ -88,10 +97,18 @@ def run(ctx: Ctx) -> None:
 
 def _run(ctx: Ctx) -> None:
     quick = ctx.quick
-    maxp = 2 if quick else 3
-    consts = {"MaxParams": maxp}
-    cases = table.enumerate_cases(ctx, "wire", "ArgContract", constants=consts, invariants=INVS,
-                                  name=f"ArgContract: all signatures of <= {maxp} parameters x perturbations")
+    # two exhaustive spaces: the six basic parameter kinds at the larger arity, all thirteen kinds at a smaller one
+    spaces = [(BASE_TYPES, 2 if quick else 3), (BASE_TYPES + MORE_TYPES, 1 if quick else 2)]
+    cases, seen_case = [], set()
+    for names, maxp in spaces:
+        consts = {"MaxParams": maxp, "Types": _types(names)}
+        for cj in table.enumerate_cases(ctx, "wire", "ArgContract", constants=consts, invariants=INVS,
+                                        name=f"ArgContract: {len(names)} parameter kinds, signatures of <= {maxp} parameters x perturbations"):
+            k = repr(cj["case"])
+            if k not in seen_case:
+                seen_case.add(k)
+                cases.append(cj)
+    consts = {"MaxParams": 0, "Types": _types(BASE_TYPES + MORE_TYPES)}      # (judging needs no case space)
     ctx.exhaustive = True
     ctx.rule = ("case = (signature, perturbation) of ArgContract!Cases, executed on each of the four dispatch paths; "
                 "non-trivial = distinct (method, concrete request batch, dispatch path, method behaviour) executed on "
@@ -112,6 +129,10 @@ def _run(ctx: Ctx) -> None:
     http = make_sync_client(server, token_key=b"k" * 32)
     ctx.extra["service"] = {"signatures": len(sigs), "methods": 2 * len(sigs), "build_s": round(time.monotonic() - t0, 1)}
     socks = {"pipe": Sock(server, "pipe"), "unix": Sock(server, "unix")}
+    from vgi_rpc.shm import HEADER_SIZE, ShmSegment
+
+    seg = ShmSegment.create(HEADER_SIZE + (1 << 20))      # the raw peer's own segment for the pointer-delivered path
+    seg_md = {b"vgi_rpc.shm_segment_name": seg.name.encode(), b"vgi_rpc.shm_segment_size": str(seg.size).encode()}
     obs: list[dict] = []
     n = 0
     nvar = 1 if quick else 2
@@ -122,15 +143,30 @@ def _run(ctx: Ctx) -> None:
             code = A.sig_code(sig)
             for path in PATHS:
                 stream = path.endswith("stream")
-                meth = ("s_" if stream else "u_") + code
+                meth = ("s_" if stream else "c_" if path.endswith("ctx") else "u_") + code
+                if meth not in server.methods or (path == "sock_shm" and not sig):
+                    continue
                 declared = server.methods[meth].params_schema
-                behs = BEHS if exp["invoke"] else [BEHS[(ci + len(path)) % 3]]
+                behs = BEHS if exp["invoke"] else [BEHS[(ci + len(path)) % len(BEHS)]]
+                if exp["invoke"] and path in ("sock_shm", "sock_ctx", "http_ctx") and len(sig) > 1:
+                    behs = ["ok", BEHS[1 + ci % 5]]
                 for beh in behs:
                     many = nvar if len(sig) <= 2 else 1        # 3-parameter signatures: one concrete variant per path
                     for vi in range(many if beh == "ok" or not exp["invoke"] else 1):
                         v = 3 * ci + 5 * vi + len(path)
                         conc = A.concretise(case, declared, v)
-                        body = world.raw_request(meth.encode(), conc["batch"].schema, batch=conc["batch"])
+                        if path == "sock_shm":
+                            # the perturbed batch lives in the segment; what travels inline is a pointer batch that
+                            # carries the *declared* schema and no row
+                            seg.reset()
+                            open("/tmp/w2/last_shm_case.txt", "w").write(repr((case, meth, conc["label"], str(conc["batch"].schema), conc["batch"].to_pydict())))
+                            off, ln = seg.allocate_and_write(conc["batch"])
+                            inline = pa.RecordBatch.from_arrays([pa.nulls(0, f.type) for f in declared], schema=declared)
+                            md = dict(seg_md)
+                            md[b"vgi_rpc.shm_offset"], md[b"vgi_rpc.shm_length"] = str(off).encode(), str(ln).encode()
+                            body = world.raw_request(meth.encode(), declared, batch=inline, md=md)
+                        else:
+                            body = world.raw_request(meth.encode(), conc["batch"].schema, batch=conc["batch"])
                         del log[:]
                         mode["beh"] = beh
                         status, marker = 0, False
@@ -146,7 +182,8 @@ def _run(ctx: Ctx) -> None:
                             sts = world.read_streams(r.content) if ct.startswith(world.ARROW_CT) else []
                         calls = list(log)
                         err = _first_error(sts)
-                        args_ok = bool(calls) and all(c == (meth, conc["seen"]) and
+                        want = (meth, conc["seen"], True) if meth.startswith("c_") else (meth, conc["seen"])
+                        args_ok = bool(calls) and all(c == want and
                                                       all(type(x) is type(y) for x, y in zip(c[1], conc["seen"]))
                                                       for c in calls)
                         o = {"path": path, "beh": beh, "ncalls": len(calls), "args_ok": args_ok, "status": status,
@@ -169,6 +206,11 @@ def _run(ctx: Ctx) -> None:
     finally:
         for s in socks.values():
             s.close()
+        try:
+            seg.unlink()
+            seg.close()
+        except Exception:  # noqa: BLE001
+            pass
     ctx.extra["executions"] = {"n": n, "wall_s": round(time.monotonic() - t0, 1)}
     bad = table.judge(ctx, "wire", "ArgContract", [{"case": o["case"], "obs": o["obs"]} for o in obs], constants=consts)
     for idx, clauses in bad:
